@@ -37,7 +37,10 @@ BOUND_KINDS = ["none", "none", "inside", "inside", "clip_low", "clip_high", "bel
 
 
 def gen_bounding(rng):
-    return {"kind": rng.choice(BOUND_KINDS), "a": rng.choice([0.1, 0.25, 0.4]), "b": rng.choice([0.55, 0.7, 0.9])}
+    b = {"kind": rng.choice(BOUND_KINDS), "a": rng.choice([0.1, 0.25, 0.4]), "b": rng.choice([0.55, 0.7, 0.9])}
+    if b["kind"] != "none" and rng.random() < 0.25:
+        b["unit"] = rng.choice(["MHz", "GHz", "kHz", "Hz"])
+    return b
 
 
 def generate(rng, tier):
@@ -159,12 +162,20 @@ def bounding_of(b, fr):
         r = (fr.fmin + b["b"] * span, fr.fmin + b["a"] * span)
     else:
         r = (fr.fmin - 0.5 * span, fr.fmin + 1.5 * span)
+    if b.get("unit"):
+        # the bounds as astropy quantities in the user's unit; the reference works from astropy's own conversion of
+        # exactly those objects back to Hz
+        from astropy import units as u
+        rq = tuple((x * u.Hz).to(u.Unit(b["unit"])) for x in r)
+        r = tuple(float(q.to(u.Hz).value) for q in rq)
+    else:
+        rq = r
     # the statement: index range of the requested frequencies, clipped to the band
     i0 = int(np.round((r[0] - fr.fmin) / fr.df))
     i1 = int(np.round((r[1] - fr.fmin) / fr.df))
     lo = min(max(i0, 0), n)
     hi = min(max(i1, lo), n)
-    return r, (lo, hi), k
+    return rq, (lo, hi), k
 
 
 def execute(sc, ctx):
